@@ -91,7 +91,7 @@ func (ix *sliceIndex) smtTextLight(o *Oblig) string {
 		if isRangeFact(p) && !strings.HasPrefix(o.Kind, "safety/overflow") {
 			continue
 		}
-		if strings.Count(p, "(exists ") >= 2 || reExists2.MatchString(p) {
+		if strings.Contains(p, "(exists ") {
 			continue
 		}
 		pre = append(pre, p)
